@@ -16,8 +16,7 @@ U32 = 2 ** 32
 ASSUMPTIONS = [
     "XML tokenisation (quick-xml) and the zip container are outside the model: the model starts at the element tree of one table:table",
     "str::parse::<f64> is outside the model: a Float carries the text of office:value, both drivers convert it with a correctly rounded parser",
-    "cell content is restricted to <text:p>text</text:p>* (the full content grammar is property C19)",
-    "no white space between the elements of a table:table-row (F29: read_row rejects it; outside the stated quantifier)",
+    "the text grammar inside a paragraph is property C19's: here a paragraph is <text:p>text</text:p>; the children of a cell (paragraphs, annotation, anchored drawing objects with paragraphs of their own, indentation, comments) and what stands between the cells of a row (white space, comments; anything else is an error) are generated and modelled",
     "repeat counts are positive (ODF positiveInteger); at most 2^32 rows announced (what read_table accepts; more is an error on both sides), column indices fit u32 and the sheet's cell count fits usize (extent_ok): outside that guard only model = implementation is checked",
     "allocation failure on absurdly large interior repeats is not modelled; the generator keeps materialised areas small",
 ]
@@ -343,10 +342,58 @@ def wrap_rows(rowtoks, rng):
         toks = toks + ["G" + hx(b), "g" + hx(b)]
     return toks
 
-def desc_of(enc, rng):
-    return " ".join(wrap_rows(row_tokens(enc, rng), rng))
+INDENTS = ["\n", "\n  ", "\n      ", " ", "\n\t\t", "\r\n    "]
+SHAPES = ["draw:frame", "draw:custom-shape", "draw:g", "draw:frame", "draw:rect", "dr3d:scene", "draw:control"]
 
-def row_tokens(enc, rng):
+def gen_layout(rng):
+    """how the file is laid out: indentation between the cells of a row and between the children
+    of a cell (a pretty-printing writer), comments, annotations, drawing objects anchored to
+    cells; rarely something that must not stand in a row (the file is then rejected)"""
+    return {"indent": rng.random() < 0.45, "comments": rng.random() < 0.2,
+            "shapes": rng.random() < 0.45, "annot": rng.random() < 0.2,
+            "bad": rng.random() < 0.012, "ws": rng.choice(INDENTS)}
+
+def desc_of(enc, rng, layout=None):
+    layout = gen_layout(rng) if layout is None else layout
+    toks = wrap_rows(row_tokens(enc, rng, layout), rng)
+    if layout["indent"]:
+        # white space between the children of table:table and of the row holders
+        out = []
+        for t in toks:
+            if t[0] in "RGg" and rng.random() < 0.95:
+                out.append("J" + hx(layout["ws"]))
+            out.append(t)
+        if rng.random() < 0.95:
+            out.append("J" + hx("\n"))
+        toks = out
+    return " ".join(toks)
+
+def cell_items(cell, rng, layout):
+    """the children of a cell element as item strings (see ocaml/cmd_odsgrid.ml)"""
+    items = [hx(p) for p in display_paras(cell, rng)]
+    if cell[0] != "none" or cell[2]:
+        if layout["annot"] and rng.random() < 0.2:
+            items.insert(0, "n:" + hx(rng.choice(TEXTS) or "note"))
+        if layout["shapes"] and rng.random() < 0.3:
+            for _ in range(rng.choice([1, 1, 2])):
+                paras = [rng.choice(TEXTS) for _ in range(rng.choice([0, 1, 1, 2, 3]))]
+                it = "h" + ":".join([hx(rng.choice(SHAPES))] + [hx(q) for q in paras])
+                items.insert(len(items) if rng.random() < 0.85 else rng.randrange(0, len(items) + 1), it)
+    if layout["comments"] and rng.random() < 0.1:
+        items.insert(rng.randrange(0, len(items) + 1), "k")
+    if layout["indent"] and items:
+        out = []
+        for it in items:
+            if rng.random() < 0.95:
+                out.append("w" + hx(layout["ws"] + "  "))
+            out.append(it)
+        if rng.random() < 0.95:
+            out.append("w" + hx(layout["ws"]))
+        items = out
+    return items
+
+def row_tokens(enc, rng, layout=None):
+    layout = layout or {"indent": False, "comments": False, "shapes": False, "annot": False, "bad": False, "ws": "\n"}
     rows = []
     for rowrep, elems in enc:
         toks = []
@@ -375,9 +422,17 @@ def row_tokens(enc, rng):
                 elif rng.random() < 0.03:
                     a.append(("table:number-rows-spanned", "2"))
             t = "C" + ("1" if cov else "0") + ",".join("%s=%s" % (hx(k), hx(v)) for k, v in a)
-            for p in display_paras(cell, rng):
-                t += "~" + hx(p)
+            for it in cell_items(cell, rng, layout):
+                t += "~" + it
+            if layout["indent"] and rng.random() < 0.95:
+                toks.append("W" + hx(layout["ws"]))
+            if layout["comments"] and rng.random() < 0.05:
+                toks.append("K")
+            if layout["bad"] and rng.random() < 0.2:
+                toks.append("X")
             toks.append(t)
+        if layout["indent"] and elems and rng.random() < 0.95:
+            toks.append("W" + hx(layout["ws"][:-2] if len(layout["ws"]) > 2 else layout["ws"]))
         rows.append(toks)
     return rows
 
@@ -390,6 +445,10 @@ NS = ('xmlns:office="urn:oasis:names:tc:opendocument:xmlns:office:1.0" '
       'xmlns:table="urn:oasis:names:tc:opendocument:xmlns:table:1.0" '
       'xmlns:text="urn:oasis:names:tc:opendocument:xmlns:text:1.0" '
       'xmlns:calcext="urn:org:documentfoundation:names:experimental:calc:xmlns:calcext:1.0" '
+      'xmlns:draw="urn:oasis:names:tc:opendocument:xmlns:drawing:1.0" '
+      'xmlns:dr3d="urn:oasis:names:tc:opendocument:xmlns:dr3d:1.0" '
+      'xmlns:svg="urn:oasis:names:tc:opendocument:xmlns:svg-compatible:1.0" '
+      'xmlns:xlink="http://www.w3.org/1999/xlink" xmlns:dc="http://purl.org/dc/elements/1.1/" '
       'office:version="1.2"')
 
 def parse_attrs(s):
@@ -401,11 +460,57 @@ def parse_attrs(s):
         out.append((unhx(k), unhx(v)))
     return out
 
+def esc_ws(s):
+    return s.replace("\r", "&#13;")
+
+def para_xml(p):
+    return "<text:p>%s</text:p>" % esc_text(p) if p else "<text:p/>"
+
+def item_xml(it):
+    """one child of a cell element"""
+    if it == "" or it[0] not in "wkhn":
+        return para_xml(unhx(it))
+    if it[0] == "w":
+        return esc_ws(unhx(it[1:]))
+    if it[0] == "k":
+        return "<!-- in the cell -->"
+    if it[0] == "n":
+        paras = [unhx(q) for q in it[1:].split(":")[1:]]
+        return ('<office:annotation office:display="false"><dc:date>2024-01-01T00:00:00</dc:date>%s</office:annotation>'
+                % "".join(para_xml(q) for q in paras))
+    f = it[1:].split(":")
+    name, paras = unhx(f[0]), [unhx(q) for q in f[1:]]
+    geo = ' draw:z-index="0" draw:name="O&amp;1" svg:width="3cm" svg:height="2cm" svg:x="0cm" svg:y="0cm"'
+    if name == "draw:frame":
+        if len(paras) >= 3:
+            # a text box holding a paragraph with a text box anchored in it, then more paragraphs
+            # (same-name nesting: a reader that stops at the first </draw:frame> leaks the rest)
+            nested = '<draw:frame%s><draw:text-box>%s</draw:text-box></draw:frame>' % (geo, para_xml(paras[0]))
+            inner = "<draw:text-box><text:p>%s</text:p>%s</draw:text-box>" % (nested, "".join(para_xml(q) for q in paras[1:]))
+        elif paras:
+            inner = "<draw:text-box>%s</draw:text-box>" % "".join(para_xml(q) for q in paras)
+        else:
+            inner = '<draw:image xlink:href="Pictures/1.png" xlink:type="simple"><text:p/></draw:image>'
+        return '<draw:frame table:end-cell-address="S.C4"%s>%s</draw:frame>' % (geo, inner)
+    if name == "draw:g":
+        # a group inside a group, each shape with one paragraph; the last shape stands in the
+        # outer group AFTER the inner one (a reader that stops at the first </draw:g> leaks it)
+        rect = lambda q: '<draw:rect%s>%s</draw:rect>' % (geo, para_xml(q))
+        return "<draw:g><draw:g>%s</draw:g><draw:line/>%s</draw:g>" % (
+            "".join(rect(q) for q in paras[:-1]), "".join(rect(q) for q in paras[-1:]))
+    if name == "draw:custom-shape":
+        return '<draw:custom-shape%s>%s<draw:enhanced-geometry draw:type="rectangle"/></draw:custom-shape>' % (
+            geo, "".join(para_xml(q) for q in paras))
+    return "<%s%s>%s</%s>" % (name, geo, "".join(para_xml(q) for q in paras), name)
+
 def xml_of_desc(desc):
     """the content.xml this description stands for (deterministic)"""
     flavour = sum(map(ord, desc[:64])) + len(desc)
-    out = ['<?xml version="1.0" encoding="UTF-8"?><office:document-content %s><office:body>'
-           '<office:spreadsheet><table:table table:name="S">' % NS]
+    # an indented table stands in an indented document
+    pretty = any(t[0] == "W" or (t[0] == "J" and len(t) > 1) for t in desc.split(" ") if t)
+    nl = (lambda k: "\n" + " " * k) if pretty else (lambda k: "")
+    out = ['<?xml version="1.0" encoding="UTF-8"?>%s<office:document-content %s>%s<office:body>%s'
+           '<office:spreadsheet>%s<table:table table:name="S">' % (nl(0), NS, nl(1), nl(2), nl(3))]
     if flavour % 3 == 0:
         out.append('<table:table-column table:style-name="co1" table:number-columns-repeated="16384" '
                    'table:default-cell-style-name="Default"/>')
@@ -420,7 +525,8 @@ def xml_of_desc(desc):
             if open_row:
                 out.append("</table:table-row>")
                 open_row = False
-            out.append("<%s>" % unhx(t[1:]) if t[0] == "G" else "</%s>" % unhx(t[1:]) if t[0] == "g" else "\n  <!-- x -->")
+            out.append("<%s>" % unhx(t[1:]) if t[0] == "G" else "</%s>" % unhx(t[1:]) if t[0] == "g"
+                       else esc_ws(unhx(t[1:])) if len(t) > 1 else "\n  <!-- x -->")
         elif t[0] == "R":
             if open_row:
                 out.append("</table:table-row>")
@@ -432,22 +538,28 @@ def xml_of_desc(desc):
             a = parse_attrs(t[1:])
             out.append("<table:table-row%s>" % "".join(' %s="%s"' % (k, esc_attr(v)) for k, v in a))
             open_row = True
+        elif t[0] == "W":
+            out.append(esc_ws(unhx(t[1:])))
+        elif t[0] == "K":
+            out.append("<!-- between cells -->")
+        elif t[0] == "X":
+            out.append("<![CDATA[x]]>")
         else:
             parts = t[1:].split("~")
             cov = parts[0][0] == "1"
             a = parse_attrs(parts[0][1:])
             name = "table:covered-table-cell" if cov else "table:table-cell"
             tag = name + "".join(' %s="%s"' % (k, esc_attr(v)) for k, v in a)
-            paras = [unhx(p) for p in parts[1:]]
-            if paras:
-                out.append("<%s>%s</%s>" % (tag, "".join("<text:p>%s</text:p>" % esc_text(p) for p in paras), name))
+            if parts[1:]:
+                out.append("<%s>%s</%s>" % (tag, "".join(item_xml(p) for p in parts[1:]), name))
             else:
                 out.append("<%s/>" % tag)
     if open_row:
         out.append("</table:table-row>")
         if header and rowno == 1:
             out.append("</table:table-header-rows>")
-    out.append("</table:table></office:spreadsheet></office:body></office:document-content>")
+    out.append("</table:table>%s</office:spreadsheet>%s</office:body>%s</office:document-content>%s"
+               % (nl(2), nl(1), nl(0), nl(0)))
     return "".join(out)
 
 MANIFEST = ('<?xml version="1.0" encoding="UTF-8"?>'
@@ -480,7 +592,7 @@ def classify_file(ctx, line, desc, expected, impl, model_ans, label):
     model = parts[0]
     cspec = parts[1] if len(parts) > 1 else "-"
     flags = parts[2] if len(parts) > 2 else "p-e-"
-    inside = flags == "p1e1"
+    inside = flags == "p1e1k1"
     ctx.count("guard:" + ("inside" if inside else "outside(%s)" % flags))
     if inside and expected is not None:
         if impl != expected:
@@ -520,6 +632,14 @@ def run_files(ctx, n_sheets, per_sheet, tag):
         ctx.count("row_repeat>1" if any(k > 1 and any(c != BLANK for _, c, _ in el) for k, el in enc) else "row_repeat=1")
         ctx.count("cell_repeat>1" if any(k > 1 and c != BLANK for _, el in enc for k, c, _ in el) else "cell_repeat=1")
         ctx.count("covered" if any(cov for _, el in enc for _, _, cov in el) else "no_covered")
+        toks = desc.split(" ")
+        ctx.count("layout:indented_rows" if any(t.startswith("W") for t in toks) else "layout:flat_rows")
+        ctx.count("layout:indented_cells" if any("~w" in t for t in toks) else "layout:flat_cells")
+        ctx.count("layout:anchored_objects" if any("~h" in t for t in toks) else "layout:no_anchored_object")
+        if any("~h" in t and "737472696e67" in t and "6f66666963653a737472696e672d76616c7565" not in t for t in toks):
+            ctx.count("layout:anchored_object_in_string_content_cell")
+        if any(t == "X" for t in toks):
+            ctx.count("layout:foreign_item_in_row")
         ctx.count("formula_without_value" if any(c[0] == "none" and c[2] for r in rows for c in r) else "no_bare_formula")
         if nonblank:
             ctx.nontrivial(desc)
@@ -576,13 +696,38 @@ def grid_of_enc(enc):
         r += rowrep
     return g
 
+# the former defects ODS-3 / ODS-1 of notes/AUDIT2.md: the same sheets laid out with indentation
+# at every level, comments, annotations and drawing objects anchored to cells (with text of
+# their own) must read as the flat sheet does; a CDATA section between two cells is an error
+SC = ("string_content", ("abc",), ""); SC2 = ("string_content", ("l1", "l2"), "")
+FULL = {"indent": True, "comments": True, "shapes": True, "annot": True, "bad": False, "ws": "\n     "}
+CORPUS_LAYOUT = [
+    ("ods3_indented", [(1, [(1, SC, False), (1, F2, False)])], dict(FULL, shapes=False, annot=False, comments=False)),
+    ("ods3_lo_pretty", [(1, [(1, SC, False), (1, F2, False), (1, SC2, False), (16381, BLANK, False)]),
+                        (1048575, [(16384, BLANK, False)])], dict(FULL, shapes=False)),
+    ("ods1_shapes", [(1, [(1, SC, False), (1, F2, False)]), (1, [(1, BLANK, False), (2, SC2, False)])],
+     dict(FULL, indent=False)),
+    ("ods1_shapes_indented", [(2, [(1, BLANK, False), (1, SC, False), (1, F1, True), (1, SC2, False)]), (1, []),
+                              (1, [(3, SC, False)])], FULL),
+    ("row_foreign_item", [(1, [(1, F1, False), (1, F2, False), (1, F3, False), (1, F4, False), (1, F1, False),
+                               (1, F2, False), (1, F3, False), (1, F4, False), (1, F1, False), (1, F2, False),
+                               (1, F3, False), (1, F4, False), (1, F1, False), (1, F2, False), (1, F3, False),
+                               (1, F4, False), (1, F1, False), (1, F2, False), (1, F3, False), (1, F4, False),
+                               (1, F1, False), (1, F2, False), (1, F3, False), (1, F4, False), (1, F1, False),
+                               (1, F2, False), (1, F3, False), (1, F4, False), (1, F1, False), (1, F2, False),
+                               (1, F3, False), (1, F4, False), (1, F1, False), (1, F2, False), (1, F3, False)])],
+     dict(FULL, bad=True)),
+]
+
 def run_corpus(ctx):
     tmp = vlib.tmpdir(ctx)
     lines, meta = [], []
-    for name, enc in CORPUS:
+    for name, enc, layout in [(n, e, None) for n, e in CORPUS] + CORPUS_LAYOUT:
         grid = grid_of_enc(enc)
         legal = all(p[0] < U32 and p[1] < U32 for p in grid)
-        desc = desc_of(enc, ctx.rng)
+        desc = desc_of(enc, ctx.rng, layout)
+        if layout is not None and layout["bad"] and " X" not in desc:
+            desc = desc.replace(" C", " X C", 1)
         lid = "k_" + name
         path = write_case(tmp, lid, desc)
         lines.append("%s\todsgrid\tfile\t%s\t%s" % (lid, path, desc))
